@@ -1,4 +1,5 @@
 import SqlgrepModel.Lemmas.ReaderLines
+import SqlgrepModel.Lemmas.ReaderFollow
 /-
 UTF-8 validity and line splitting: `\n` is ASCII, so a content is valid UTF-8 iff each of its
 newline-terminated chunks is; hence `lines` yields no `Err` on a valid file.
@@ -75,6 +76,73 @@ theorem validUtf8_append_nl (l rest : List Nat) :
     | [b1, b2], _ => simp [validUtf8_cons, h1, h2, h3, h4, h5, isCont_nl]
     | b1 :: b2 :: b3 :: r', hn => exact absurd rfl (hn b1 b2 b3 r')
   | case13 b0 r h1 h2 h3 h4 h5 => simp [validUtf8_cons, h1, h2, h3, h4, h5]
+
+/-- `\n` never lies inside a multi-byte sequence: validity splits at it -/
+theorem validUtf8_split_nl (l rest : List Nat) :
+    validUtf8 (l ++ nl :: rest) = (validUtf8 l && validUtf8 rest) := by
+  induction l using validUtf8.induct with
+  | case1 => simp [validUtf8_cons, nl, validUtf8]
+  | case2 b0 r h ih => simp [validUtf8_cons, h, ih]
+  | case3 b0 r h1 h2 => simp [validUtf8_cons, h1, h2]
+  | case4 b0 h1 h2 h3 b1 r hc ih => simp [validUtf8_cons, h1, h2, h3, hc, ih]
+  | case5 b0 h1 h2 h3 b1 r hc => simp [validUtf8_cons, h1, h2, h3, hc]
+  | case6 b0 r h1 h2 h3 hn =>
+    cases r with
+    | nil => simp [validUtf8_cons, h1, h2, h3, isCont_nl]
+    | cons b1 r' => exact absurd rfl (hn b1 r')
+  | case7 b0 h1 h2 h3 h4 b1 b2 r n hc ih =>
+    simp only [List.cons_append, validUtf8_cons, h1, h2, h3, h4, if_true, if_false]
+    split <;> first | exact ih | rfl | (rename_i hC; exact absurd hc hC)
+  | case8 b0 h1 h2 h3 h4 b1 b2 r n hc =>
+    simp only [List.cons_append, validUtf8_cons, h1, h2, h3, h4, if_true, if_false]
+    split
+    · rename_i hC; exact absurd hC hc
+    · simp
+  | case9 b0 r h1 h2 h3 h4 hn =>
+    match r, hn with
+    | [], _ => cases rest <;> simp [validUtf8_cons, h1, h2, h3, h4, isCont_nl]
+    | [b1], _ => simp [validUtf8_cons, h1, h2, h3, h4, isCont_nl]
+    | b1 :: b2 :: r', hn => exact absurd rfl (hn b1 b2 r')
+  | case10 b0 h1 h2 h3 h4 h5 b1 b2 b3 r n hc ih =>
+    simp only [List.cons_append, validUtf8_cons, h1, h2, h3, h4, h5, if_true, if_false]
+    split <;> first | exact ih | rfl | (rename_i hC; exact absurd hc hC)
+  | case11 b0 h1 h2 h3 h4 h5 b1 b2 b3 r n hc =>
+    simp only [List.cons_append, validUtf8_cons, h1, h2, h3, h4, h5, if_true, if_false]
+    split
+    · rename_i hC; exact absurd hC hc
+    · simp
+  | case12 b0 r h1 h2 h3 h4 h5 hn =>
+    match r, hn with
+    | [], _ => match rest with
+      | [] => simp [validUtf8_cons, h1, h2, h3, h4, h5]
+      | [_] => simp [validUtf8_cons, h1, h2, h3, h4, h5]
+      | _ :: _ :: _ => simp [validUtf8_cons, h1, h2, h3, h4, h5, isCont_nl]
+    | [b1], _ => cases rest <;> simp [validUtf8_cons, h1, h2, h3, h4, h5, isCont_nl]
+    | [b1, b2], _ => simp [validUtf8_cons, h1, h2, h3, h4, h5, isCont_nl]
+    | b1 :: b2 :: b3 :: r', hn => exact absurd rfl (hn b1 b2 b3 r')
+  | case13 b0 r h1 h2 h3 h4 h5 => simp [validUtf8_cons, h1, h2, h3, h4, h5]
+
+/-- if lines written out (followed by anything) are valid UTF-8, each line is -/
+theorem wire_valid (ls : List (List Nat)) (rest : List Nat) (h : validUtf8 (wire ls ++ rest) = true) :
+    ∀ l ∈ ls, validUtf8 l = true := by
+  induction ls with
+  | nil => intro l hl; cases hl
+  | cons x xs ih =>
+    have e : wire (x :: xs) ++ rest = x ++ nl :: (wire xs ++ rest) := by simp [wire, List.append_assoc]
+    rw [e, validUtf8_split_nl, Bool.and_eq_true] at h
+    intro l hl
+    simp only [List.mem_cons] at hl
+    rcases hl with hl | hl
+    · subst hl; exact h.1
+    · exact ih h.2 l hl
+
+/-- under the follow invariant: valid UTF-8 content from the start offset ⇒ every delivered line is valid
+UTF-8 (so `String::from_utf8_lossy` changes nothing) -/
+theorem inv_delivered_valid (s : Follow) (h : Inv s) (hv : validUtf8 (s.file.drop s.start) = true) :
+    ∀ l ∈ s.delivered, validUtf8 l = true := by
+  rw [← h.1] at hv
+  simp only [List.append_assoc] at hv
+  exact wire_valid _ _ hv
 
 theorem linesAux_allOk_of_valid (cur bs : List Nat) (h : validUtf8 (cur.reverse ++ bs) = true) :
     allOk (linesAux cur bs) = true := by
